@@ -118,28 +118,100 @@ inductive Outcome (α : Type)
   | panic
   deriving DecidableEq, Repr
 
-/-- `template.iter().map(|p| p.satisfy_self(stfr)).collect::<Option<Vec<_>>>()` -/
-def complete (r : Ph → Option Bytes) (l : List Ph) : Option (List Bytes) := l.mapM r
+/-- `Placeholder::satisfy_all` (shared by `Satisfaction::try_completing` and `Plan::satisfy`
+since commit "fix: Plan::satisfy completes a tapscript raw pkh the way get_satisfaction
+does"): `satisfy_self` for every placeholder and, for a `PubkeyHash` that directly follows the
+`SchnorrSigPkHash` of the same hash, the key that `lookup_raw_pkh_tap_leaf_script_sig` returns
+(`fb`) as a fallback.  `prev` = the placeholder before the current one. -/
+def tryCompleting (r : Ph → Option Bytes) (fb : Nat → Option Bytes) :
+    Option Ph → List Ph → Option (List Bytes)
+  | _, [] => some []
+  | prev, p :: ps =>
+    let item : Option Bytes :=
+      match r p with
+      | some b => some b
+      | none =>
+        match p, prev with
+        | .pubkeyHash h _, some (.schnorrSigPkh h' _) => if h = h' then fb h else none
+        | _, _ => none
+    match item, tryCompleting r fb (some p) ps with
+    | some b, some bs => some (b :: bs)
+    | _, _ => none
 
 /-- `Plan::satisfy` -/
-def PlanM.satisfy (d : DescData) (r : Ph → Option Bytes) (p : PlanM) : Option (List Bytes × Bytes) :=
-  (complete r p.template).map (planSatisfy d)
+def PlanM.satisfy (d : DescData) (r : Ph → Option Bytes) (fb : Nat → Option Bytes) (p : PlanM) :
+    Option (List Bytes × Bytes) :=
+  (tryCompleting r fb none p.template).map (planSatisfy d)
 
 /-- `Miniscript::satisfy*` / `Tr::get_satisfaction*`: `try_completing(..).expect(..)` on the
 template, then `Stack → Ok`, otherwise `Err(CouldNotSatisfy)` -/
-def msSatisfy (r : Ph → Option Bytes) (t : Sat) : Outcome (List Bytes) :=
+def msSatisfy (r : Ph → Option Bytes) (fb : Nat → Option Bytes) (t : Sat) : Outcome (List Bytes) :=
   match t.stack with
-  | .stack l => match complete r l with
+  | .stack l => match tryCompleting r fb none l with
     | some bs => .ok bs
     | none => .panic
   | _ => .err
 
 /-- `Descriptor::get_satisfaction{,_mall}` for the miniscript-based types and `tr` -/
-def descGetSatisfaction (d : DescData) (r : Ph → Option Bytes) (t : Sat) : Outcome (List Bytes × Bytes) :=
-  match msSatisfy r t with
+def descGetSatisfaction (d : DescData) (r : Ph → Option Bytes) (fb : Nat → Option Bytes) (t : Sat) :
+    Outcome (List Bytes × Bytes) :=
+  match msSatisfy r fb t with
   | .ok bs => .ok (getSatisfaction d bs)
   | .err => .err
   | .panic => .panic
+
+/-! ### a satisfier and its provider view -/
+
+/-- what a `Satisfier` answers (bytes) -/
+structure Stfr where
+  ecdsaSig : Key → Option Bytes
+  /-- `lookup_tap_leaf_script_sig` for the leaf being satisfied -/
+  schnorrSig : Key → Option Bytes
+  /-- `Pubkey(pk, size)`: x-only serialisation if `size = 33`, else the full key -/
+  keyBytes : Key → Nat → Bytes
+  /-- `lookup_raw_pkh_pk`: key atom and its bytes -/
+  rawPk : Nat → Option (Key × Bytes)
+  /-- `lookup_raw_pkh_x_only_pk` -/
+  rawXonly : Nat → Option (Key × Bytes)
+  /-- `lookup_raw_pkh_ecdsa_sig`: key atom, key bytes, signature -/
+  rawEcdsa : Nat → Option (Key × Bytes × Bytes)
+  /-- `lookup_raw_pkh_tap_leaf_script_sig`: key atom, key bytes, signature -/
+  rawSchnorr : Nat → Option (Key × Bytes × Bytes)
+  preimage : HashKind → Nat → Option Bytes
+  checkOlder : Nat → Bool
+  checkAfter : Nat → Bool
+
+/-- `impl AssetProvider for Satisfier` as `sat_dissat` consults it in context `ctx` (tapscript
+reads the x-only / tap-leaf lookups, the other contexts the full-key / ECDSA ones) -/
+def Stfr.assets (s : Stfr) (ctx : Ctx) : Assets where
+  ecdsaSig k := (s.ecdsaSig k).isSome
+  schnorrSig k := (s.schnorrSig k).map List.length
+  rawPkhPk h := if ctx = .tap then (s.rawXonly h).map (·.1) else (s.rawPk h).map (·.1)
+  rawPkhEcdsa h := if ctx = .tap then none else (s.rawEcdsa h).map (·.1)
+  rawPkhSchnorr h := if ctx = .tap then (s.rawSchnorr h).map (fun p => (p.1, p.2.2.length)) else none
+  preimage kind h := (s.preimage kind h).isSome
+  checkOlder := s.checkOlder
+  checkAfter := s.checkAfter
+
+/-- `Placeholder::satisfy_self` -/
+def Stfr.realise (s : Stfr) : Ph → Option Bytes
+  | .pubkey k sz => some (s.keyBytes k sz)
+  | .pubkeyHash h sz =>
+    if sz = 33 then (s.rawXonly h).map (·.2)
+    else match s.rawPk h with
+      | some p => some p.2
+      | none => (s.rawEcdsa h).map (·.2.1)
+  | .ecdsaSig k => s.ecdsaSig k
+  | .ecdsaSigPkh h => (s.rawEcdsa h).map (·.2.2)
+  | .schnorrSig k _ => s.schnorrSig k
+  | .schnorrSigPkh h _ => (s.rawSchnorr h).map (·.2.2)
+  | .preimage kind h => s.preimage kind h
+  | .hashDissat => some (List.replicate 32 0)
+  | .pushOne => some [1]
+  | .pushZero => some []
+
+/-- the key `try_completing` falls back to for a tapscript raw pkh -/
+def Stfr.fallback (s : Stfr) (h : Nat) : Option Bytes := (s.rawSchnorr h).map (·.2.1)
 
 /-- `Pkh/Wpkh::plan_satisfaction`: `[EcdsaSigPk, Pubkey]` if the provider has the key -/
 def keyTemplate (k : Key) (pkLen : Nat) (avail : Bool) : Sat :=
@@ -166,12 +238,12 @@ def Item.size : Item → Nat
   | .tapScript n => n + varintLen n
   | .tapControl n => n + varintLen n
 
-/-- what `Placeholder::satisfy_self` puts in the place of an item, by length: keys and hashes
-exactly, an ECDSA signature (DER + sighash byte) 9..72 bytes, a Schnorr signature of exactly
+/-- what `Placeholder::satisfy_self` puts in the place of an item, by length: keys (32 / 33 / 65
+bytes, announced with their length byte) and hashes exactly, an ECDSA signature (DER + sighash byte) 9..72 bytes, a Schnorr signature of exactly
 the announced 64 / 65 bytes, `[1]`, `[]`, the leaf script and the control block exactly -/
 def Item.fits (it : Item) (len : Nat) : Bool :=
   match it with
-  | .ph (.pubkey _ s) | .ph (.pubkeyHash _ s) => len + 1 == s && len < 0xfd
+  | .ph (.pubkey _ s) | .ph (.pubkeyHash _ s) => len + 1 == s && 32 ≤ len && len < 0x4c
   | .ph (.ecdsaSig _) | .ph (.ecdsaSigPkh _) => 9 ≤ len && len + 1 ≤ 73
   | .ph (.schnorrSig _ s) | .ph (.schnorrSigPkh _ s) => len == s && (s == 64 || s == 65)
   | .ph (.preimage _ _) | .ph .hashDissat => len == 32
